@@ -320,7 +320,7 @@ def sweep_unit(unit, tier):
     from hl7apy.core import Segment
     v, seg = unit
     res = Result()
-    if tables.segment_anomaly(v, seg) or seg == 'ANYHL7SEGMENT' or tables.has_gap(v, seg) or tables.row_anomalies(v, seg):
+    if tables.segment_anomaly(v, seg) or seg == 'ANYHL7SEGMENT' or tables.row_anomalies(v, seg):
         res.blocked['segment with table anomaly (C02 findings)'] += 1
         return res
     ec = refmodel.default_ec(v)
